@@ -301,3 +301,31 @@ package fs
 //@   loop 0 invariant scanned: (forall b int :: 0 <= b && b < len(name) ==> name[b] != '\\') ==> i <= len(name) && (forall k int :: 0 <= k && k < i ==> !specIsWild(name[k]))
 //@   ensures sound: result ==> exists k int :: 0 <= k && k < len(name) && specIsWild(name[k])
 //@   ensures complete_without_escapes: (forall b int :: 0 <= b && b < len(name) ==> name[b] != '\\') && (exists k int :: 0 <= k && k < len(name) && specIsWild(name[k])) ==> result
+
+// fixCreatedParentDirs re-times the directories this call created, deepest first
+//@ func fixCreatedParentDirs
+//@   property C13
+//@   trusted uses the generic slices.Reverse
+//@   effects Utimes
+//@   modifies dirs[*]
+
+//@ func newCopier
+//@   property C13 C16
+//@   trusted constructor: allocates the copier with an empty inode map
+//@   ensures result1 == nil ==> result0 != nil && fresh(result0) && result0.inodes != nil && len(result0.parentDirs) == 0 && result0.root == root && result0.chown == chown && result0.utime == tm && result0.mode == mode && result0.modeSet == modeSet && result0.alwaysReplaceExistingDestPaths == alwaysReplaceExistingDestPaths && result0.changefn == changeFunc
+
+// The entry point. A destination whose last element is empty or "." (trailing
+// separator) is created as a directory first, so a file lands inside it; every
+// path handed to the copier is resolved inside its root (RootPath / rootPath);
+// the copy starts with empty source components and without overwriting the
+// target's metadata.
+//@ func Copy
+//@   property C15 C14 C13
+//@   modifies heap
+//@   effects *
+//@   loop 1 invariant copier: c != nil && c.inodes != nil
+//@   at call MkdirAll: ensure_dst: arg0 == fs.RootPath(dstRoot, ite(filepath.Split#1(dst) != "" && filepath.Split#1(dst) != ".", filepath.Split(dst), dst)) && ite(filepath.Split#1(dst) != "" && filepath.Split#1(dst) != ".", filepath.Split(dst), dst) != ""
+//@   at call newCopier: root: arg0 == dstRoot
+//@   at call rootPath: src_in_root: arg0 == srcRoot
+//@   at call copier.prepareTargetDir: dst_in_root: arg3 == fs.RootPath(dstRoot, filepath.Clean(dst))
+//@   at call copier.copy: start: arg3 == "" && arg5 == false
